@@ -35,7 +35,7 @@ struct Big {
     ps = ::new (static_cast<void *>(buf)) FS();
     Vec &v = ps->*get(vf::FB_TVec());
     p = A().allocate(FB_N + spare);
-    vf_havoc(p, FB_N + spare);                              // arbitrary content ...
+    for (unsigned i = 0; i < FB_N; ++i) p[i] = nd8();       // arbitrary content (drawn one by one so that a counterexample replays natively) ...
     for (unsigned i = 1; i < FB_N; ++i) vf_assume(p[i - 1] < p[i]);   // ... assumed strictly increasing
     vf::Acc::capa(v) = static_cast<S>(FB_N + spare); vf::Acc::size(v) = static_cast<S>(FB_N); vf::Acc::setDyn(v, p);
     g_cmp = 0;
